@@ -38,3 +38,17 @@ package common
 //@   requires st != nil
 //@   ensures [copy] ret != nil && fresh(ret) && (forall k in dom(ret) :: ret[k] != nil)
 //@   modifies fresh map[peer.ID]*gossipv1.Heartbeat
+
+// ---------------------------------------------------------------- heartbeat table (C03)
+
+// hbTable: the per-guardian node tables exist and none holds more than MaxNodesPerGuardian entries
+//@ pred hbTable(st *GuardianSetState) = st.lastHeartbeats != nil && (forall a in dom(st.lastHeartbeats) :: st.lastHeartbeats[a] != nil && allocated(st.lastHeartbeats[a]) && len(st.lastHeartbeats[a]) <= 15)
+
+//@ func (st *GuardianSetState) SetHeartbeat(addr common.Address, peerId peer.ID, hb *gossipv1.Heartbeat) (err error)
+//@   props C03
+//@   requires st != nil && hbTable(st)
+//@   ensures [cap] hbTable(st)
+//@   ensures [reject-no-effect] err != nil ==> unchanged("map[peer.ID]*gossipv1.Heartbeat") && unchanged("map[common.Address]map[peer.ID]*gossipv1.Heartbeat")
+//@   ensures [stored] err == nil ==> indom(st.lastHeartbeats, addr) && indom(st.lastHeartbeats[addr], peerId) && st.lastHeartbeats[addr][peerId] == hb
+//@   modifies map[peer.ID]*gossipv1.Heartbeat, map[common.Address]map[peer.ID]*gossipv1.Heartbeat, chan
+//@   nopanic
